@@ -130,7 +130,7 @@ func checkLookup(c lookupCase) error {
 		return nil
 	}
 	spec := c.Msg
-	spec.Rcode = 0 // NOTAUTH is reported as ErrAuth by design, see checkTsig
+	spec.Rcode = 0 // (also keeps RCODE NOTAUTH out, which TsigVerify reports as ErrAuth whatever the MAC: known finding tsig-rcode-notauth, see checkTsig)
 	if len(spec.Extra) > 2 {
 		spec.Extra = spec.Extra[:2]
 	}
